@@ -80,5 +80,30 @@ def Op.single : Op → Bool
   | _ => false
 
 
+/-- F29, first call site: an object is instantiated for a container and never inserted. -/
+def Op.inst : Op → Bool
+  | .instAnchor .. | .instGuide .. => true
+  | _ => false
+
+/-- The composite operations: they bring in several objects one after the other and stop at the
+first one that is rejected (F29, second call site, when objects built so far are dropped). -/
+def Op.composite : Op → Bool
+  | .draw .. | .drawFrom .. | .copyFrom .. | .insertGlyph .. | .roundtrip .. | .deserializeFrom ..
+  | .fontRoundtrip | .reload .. | .reopen .. => true
+  | _ => false
+
+/-- A history that stays clear of F29: nothing is instantiated without being inserted, and no
+composite operation is cut short. -/
+def Clean : World → List Op → Prop
+  | _, [] => True
+  | w, op :: ops =>
+    Op.inst op = false ∧ (Op.composite op = true → (step w op).2 = .ok) ∧ Clean (step w op).1 ops
+
+instance decClean : (w : World) → (ops : List Op) → Decidable (Clean w ops)
+  | _, [] => isTrue trivial
+  | w, op :: ops =>
+    have := decClean (step w op).1 ops
+    by unfold Clean; infer_instance
+
 end Ident
 end DefconModel
